@@ -199,6 +199,12 @@ def gen_spec(rng):
     colw = {j: total * w[j] / sum(dw) for j in disp}
     grouping = set(body.get("page_by") or []) | set(body.get("subline_by") or [])
     keyj = spec["_meta"]["key"]
+    if body.get("page_by") and body.get("subline_by") and rng.random() < 0.4:
+        # the (outer) page_by value does not change where the subline_by value does: one value for the whole
+        # table, or runs of its own
+        c = next(c for c in cols if c["name"] == body["page_by"][0])
+        runs2 = G.split_runs(rng, n, rng.choice([1, 1, 2, 3]))
+        c["values"] = [f"G0v{k}" for k, ln in enumerate(runs2) for _ in range(ln)]
     if body.get("page_by") and rng.random() < 0.12:
         # a group value spelled ALMOST like the divider is an ordinary value: its heading row is rendered and
         # has to be budgeted
